@@ -36,6 +36,7 @@ static std::vector<Json>& c14_table(){
     else if(e==15||e==16){ o["op"]="rotate_m"; o["a"]=0; o["d"]=e==15?d1:d2; o["c"]=e==15?d2:d1; o["vs"]=9; }   // non-square: rows or columns agree with the vector, the other extent does not
     else { o["op"]="stmt"; o["how"]=e==11?"=":"+="; o["expr"]="nested"; o["nest"]=e==11?10:11; o["t"]=2; o["a"]=0; o["b"]=1; o["ca"]=0; o["cb"]=0; o["x"]=0.5; o["flags"]=0; o["fn"]=0; }
     ops.push(o);
+    if(e>=7) ops.push(o);                                 // queries and compound assignments are repeated: rejected every time
     tab.push_back(ops);
   }
   // assignment-time size policy: operands agree (d1), the target has another dimension (d2) and cannot be resized - it views user storage, or the
@@ -85,7 +86,12 @@ static std::vector<Json>& c14_table(){
     int d=2+(int)(f%5);
     op_make(ops,0,d,false,0); op_fill(ops,0,(long)f,6);
     op_make(ops,1,d,true,0); op_fill(ops,1,(long)f+1,1);
+    if(faulty[f]["op"].as_str()=="factory" && faulty[f]["d"].as_int(0)>=2 && faulty[f]["d"].as_int(0)<=6){
+      // a valid request of the same kind and dimension first: whatever the factory remembers of it must not answer the rejected one
+      Json v=faulty[f]; v["t"]=4; v["i"]=(int)(f%(size_t)faulty[f]["d"].as_int(2)); ops.push(v);
+    }
     ops.push(faulty[f]);
+    ops.push(faulty[f]);                                  // the rejected request is repeated: it must be rejected every time
     op_make(ops,3,d,false,0);
     Json dd=Json::object(); dd["op"]="destroy"; dd["t"]=2; ops.push(dd);
     tab.push_back(ops);
